@@ -86,10 +86,10 @@ def handle (f : String) (j : Json) : Option Json :=
       | .ok none => .null
       | .error e => jerr (errName e))
   | "fb_hyp" =>
-    -- the decidable hypotheses of the two round-trip theorems on the record the url parses to:
-    -- [reparsable, charsOk]
+    -- the decidable hypotheses of the two round-trip theorems on the record the url parses to, and
+    -- the conclusion of `parsed_path_fields_clean`: [reparsable, charsOk, pathFieldsClean]
     some (match parse_facebook_url (s j "url") (fieldBool j "rel") with
-      | .ok (some r) => jlist [jbool (reparsable r), jbool (charsOk r)]
+      | .ok (some r) => jlist [jbool (reparsable r), jbool (charsOk r), jbool (pathFieldsClean r)]
       | .ok none => .null
       | .error e => jerr (errName e))
   | "fb_re" =>
@@ -101,6 +101,7 @@ def handle (f : String) (j : Json) : Option Json :=
       ("mistakes_generic", out (reSub Gen.C19Facebook.MISTAKES_RE ['&'] x)),
       ("squeeze_hand", out (UrlParts.squeezeSlashes x)),
       ("squeeze_generic", out (reSub Gen.C19Facebook.SLASH_SQUEEZE_RE ['/'] x)),
+      ("strip_segments", out (stripSegments x)),
       ("mobile", out (reSub Gen.C19Facebook.MOBILE_REPLACE_RE (lit "m.facebook.") x)),
       ("domain", jbool (reSearch Gen.C19Facebook.FACEBOOK_DOMAIN_RE x)),
       ("extract", jspan (Re.search Gen.C19Facebook.URL_EXTRACT_RE x))])
